@@ -7,13 +7,14 @@ from bluesky.utils import Msg
 from vf.common import rng_for
 from vf.oracles.common import quiet_logging
 from vf.oracles.docs import check_stream
+from vf.devices import StreamDet
 from vf.reh import Harness
 from vf.worker import R
 
 PROPERTY = "C45"
 LEVEL = "exploration"
 RULE = ("case = one RunEngine execution with 1-3 fake detectors that write stream assets (WritesStreamAssets + Collectable), "
-        "pre-declared into one stream and collected together 1..6 times; between collects every detector's frame counter "
+        "pre-declared into one stream and collected together 1..6 times, with checkpoints, repeated declare_stream (fresh descriptor) and plan-requested pauses (resumed: rewind + replay) in between; between collects every detector's frame counter "
         "advances by a scripted amount (0..5, different per detector), so the joint collect must stop at the minimum; "
         "oracle: per data key the stream_datum indices tile [0, n) and their seq_nums tile [1, n+1) in order; after each "
         "joint collect all detectors' ranges end at min(get_index); RunStop num_events[stream] == n; C01 stream oracle; "
@@ -21,7 +22,7 @@ RULE = ("case = one RunEngine execution with 1-3 fake detectors that write strea
 ASSUMPTIONS = ["the fake detectors emit one stream_resource at their first collect and one stream_datum per collect covering "
                "[last emitted, requested index)"]
 REQUIRED_COUNTERS = {"executions": 200, "collects": 600, "stream_datums_checked": 800, "multi_detector_runs": 100,
-                     "lagging_detector_collects": 100}
+                     "lagging_detector_collects": 100, "pauses_resumed": 60, "redeclared_streams": 60}
 MANIFEST = {
     "technique": "document oracle (index / seq_num tiling, common minimum index, num_events) on real collect() executions "
                  "with scripted stream-asset fakes",
@@ -32,45 +33,6 @@ MANIFEST = {
     "note": "Sampled progressions; fakes follow the WritesStreamAssets protocol.",
     "design_ref": "7 (C45)",
 }
-
-
-class StreamDet:
-    parent = None
-
-    def __init__(self, name, log):
-        self.name = name
-        self.log = log
-        self.written = 0
-        self.emitted = 0
-        self.res_emitted = False
-        self.key = f"{name}-sd"
-
-    def describe_collect(self):
-        return {self.key: {"source": "file", "dtype": "number", "shape": [4, 4], "external": "STREAM:"}}
-
-    def get_index(self):
-        self.log.append(("dev", self.name, "get_index", self.written, None))
-        return self.written
-
-    def collect_asset_docs(self, index=None):
-        if index is None:
-            index = self.written
-        self.log.append(("dev", self.name, "collect_asset_docs", index, None))
-        if not self.res_emitted:
-            self.res_emitted = True
-            yield "stream_resource", {"uid": f"{self.name}-res", "data_key": self.key, "mimetype": "application/x-hdf5",
-                                      "uri": "file://localhost/tmp/x.h5", "parameters": {"dataset": "/data"}, "run_start": ""}
-        if index > self.emitted:
-            yield "stream_datum", {"uid": f"{self.name}-res/{self.emitted}", "stream_resource": f"{self.name}-res",
-                                   "descriptor": "", "indices": {"start": self.emitted, "stop": index},
-                                   "seq_nums": {"start": 0, "stop": 0}}
-            self.emitted = index
-
-    def kickoff(self):
-        raise NotImplementedError
-
-    def complete(self):
-        raise NotImplementedError
 
 
 def worker_init(tier, seed):
@@ -93,22 +55,37 @@ def run_case(case):
         ncol = rng.randint(1, 6)
         prog = [[rng.choice([0, 1, 1, 2, 3, 5]) for _ in range(nd)] for _ in range(ncol)]
         mins = []
+        # between two collects: nothing / a checkpoint / the stream declared again (fresh descriptor) / a pause requested by
+        # the plan (resumed by the caller: the engine rewinds to the last checkpoint and replays the collects since then)
+        between = [rng.choice(["", "", "checkpoint", "checkpoint", "redeclare", "pause", "redeclare+pause"]) for _ in range(ncol)]
 
         def plan():
             yield Msg("open_run")
             yield Msg("declare_stream", None, *dets, name="main", collect=True)
-            for step in prog:
+            yield Msg("checkpoint")
+            for step, extra in zip(prog, between):
                 for d, inc in zip(dets, step):
                     d.written += inc
                 mins.append(min(d.written for d in dets))
                 yield Msg("collect", *dets, name="main")
+                if extra == "checkpoint":
+                    yield Msg("checkpoint")
+                if "redeclare" in extra:
+                    yield Msg("declare_stream", None, *dets, name="main", collect=True)
+                if "pause" in extra:
+                    yield Msg("pause")
             yield Msg("close_run")
 
         res = h.call("RE", h.RE, plan())
+        npause = 0
+        while str(h.RE.state) == "paused" and npause < 10:
+            npause += 1
+            res = h.call("resume", h.RE.resume)
         h.close()
         docs = h.docs()
         problems = []
-        counters = {"executions": 1, "collects": ncol, "stream_datums_checked": 0, "multi_detector_runs": int(nd > 1),
+        counters = {"executions": 1, "collects": ncol, "stream_datums_checked": 0, "multi_detector_runs": int(nd > 1), "pauses_resumed": npause,
+                    "redeclared_streams": sum(1 for b in between if "redeclare" in b),
                     "lagging_detector_collects": sum(1 for step_i, step in enumerate(prog) if nd > 1 and len({sum(p[k] for p in prog[:step_i + 1]) for k in range(nd)}) > 1)}
         if res[0] != "ret":
             problems.append((f"collect-failed:{type(res[1]).__name__}", repr(res[1])[:200]))
@@ -138,14 +115,23 @@ def run_case(case):
             stop = next((d for n, d in docs if n == "stop"), None)
             if stop is not None and stop.get("num_events", {}).get("main", 0) != n_final:
                 problems.append(("num_events-differs-from-frames-declared", f"num_events {stop.get('num_events')} frames {n_final}"))
-            # after each joint collect every detector was asked for the minimum index
-            asks = [e[3] for e in h.log if e[0] == "dev" and e[2] == "collect_asset_docs"]
+            # at every joint collect (also a replayed one) all detectors were asked for the same index: the minimum of what
+            # they had reported in that collect
             if nd > 1:
-                for c in range(ncol):
-                    chunk = asks[c * nd:(c + 1) * nd]
-                    if any(a != mins[c] for a in chunk):
-                        problems.append(("detectors-not-collected-to-the-common-minimum", f"collect {c}: asked {chunk}, minimum {mins[c]}"))
-                        break
+                cur_idx, cur_asks = [], []
+                def close_group():
+                    if cur_asks and (len(set(cur_asks)) != 1 or (len(cur_idx) == nd and cur_asks[0] != min(cur_idx))):
+                        problems.append(("detectors-not-collected-to-the-common-minimum",
+                                         f"reported {cur_idx}, asked {cur_asks}"))
+                for e in h.log:
+                    if e[0] == "msg" and e[1].command == "collect":
+                        close_group()
+                        cur_idx, cur_asks = [], []
+                    elif e[0] == "dev" and e[2] == "get_index":
+                        cur_idx.append(e[3])
+                    elif e[0] == "dev" and e[2] == "collect_asset_docs":
+                        cur_asks.append(e[3])
+                close_group()
         key = f"dets={nd}|collects={ncol}|final={mins[-1] if mins else 0}"
         if problems:
             seen = set()
